@@ -75,7 +75,7 @@ class C20(Check):
     assumptions = ["messages passed to send are non-empty", "GIL atomicity of the modelled steps; RLock mutual exclusion", "send on a shut-down socket fails",
                    "controller connection: `disconnected` is only ever set by a fatal SEND error in this model; a disconnect from the cooperative side (read EOF, echo timeout, application disconnect()) while data is deferred is not an action of the model",
                    "select never reports an exceptional condition (elist) for a connection with deferred data: DeferredSender.run would then drop the queued data silently and leave the connection up (outside the property's fault alphabet: short writes, would-block, fatal errors); likewise its outer bare `except`",
-                   "'reported closed exactly once' for the controller connection is ConnectionDown, which is C09's theorem down_once (both fatal paths end in Connection.disconnect, guarded by disconnection_raised); part A proves it for the IOWorker",
+                   "'reported closed exactly once' for the controller connection is ConnectionDown: as a THEOREM it is C09's down_once (both fatal paths end in Connection.disconnect, guarded by disconnection_raised); here the oracle counts the ConnectionDown events of an announced connection on the real code after every part-B history (exactly one on the nexus and one on the connection iff a fatal error occurred, the serving task's con.close() included); part A proves it for the IOWorker",
                    "IOWorker: connecting sockets (_connecting/_try_connect) and shutdown(send) are not modelled"]
     rule = ("case A = op sequence over {send, send_fast(outcome), loop iteration(outcome), loop iteration with the worker readable AND writable (data / end of stream / receive error, then outcome)}; case B = action sequence over {Connection.send(data, outcome), sender iteration(outcomes), "
             "other connection defers / is flushed}; corpus = all sequences of 3 messages x 4 calls over 6 outcomes (A) and all B sequences of length <= 4 over a 9-letter alphabet; "
@@ -130,6 +130,11 @@ class C20(Check):
         for L in range(1, 5):
             for seq in itertools.product(alpha, repeat=L):
                 cases.append({"part": "B", "pb": 2, "ops": list(seq) + [{"op": "flush", "outs": []}, {"op": "flush", "outs": []}]})
+        # B, one direct attempt per Connection.send: a partial first write followed by what a retry would get
+        for o1 in (1, 2, 5):
+            for more in ([3], [4], [1, 3], [2, 3], [5, 3]):
+                for tail in ([{"op": "flush", "outs": [0, 0]}], [{"op": "send", "i": 1, "n": 4, "o": 0}, {"op": "flush", "outs": [1, 0]}], [{"op": "flush", "outs": [3]}, {"op": "send", "i": 1, "n": 4, "o": 3}]):
+                    cases.append({"part": "B", "pb": 2, "ops": [{"op": "send", "i": 0, "n": 9, "o": o1, "more": more}] + tail + [{"op": "flush", "outs": []}, {"op": "flush", "outs": []}]})
         # the Lean regression witness `raceActs` (former finding C20-R1) replayed on the real code: the sender thread's fatal
         # error is interleaved at the log call between Connection.send's `disconnected`/`sending` tests and its deferred enqueue
         cases.append({"part": "B", "pb": 512, "ops": [{"op": "send", "i": 0, "n": 1, "o": 3}, {"op": "send_raced", "i": 1, "n": 1, "outs": [4]},
@@ -154,7 +159,9 @@ class C20(Check):
                 ops = []
                 for k in range(rng.choice([3, 6, 12, rng.randint(1, 30)])):
                     r = rng.random()
-                    if r < 0.5: ops.append({"op": "send", "i": k, "n": rng.choice([1, 2, 5, 9, rng.randint(1, 30)]), "o": self._rout(rng)})
+                    if r < 0.5:
+                        ops.append({"op": "send", "i": k, "n": rng.choice([1, 2, 5, 9, rng.randint(1, 30)]), "o": self._rout(rng)})
+                        if rng.random() < 0.3: ops[-1]["more"] = [self._rout(rng) for _ in range(rng.randint(1, 2))]
                     elif r < 0.85: ops.append({"op": "flush", "outs": [self._rout(rng) for _ in range(rng.randint(0, 5))]})
                     elif r < 0.93: ops.append({"op": "envenq"})
                     else: ops.append({"op": "envdone"})
@@ -285,6 +292,15 @@ class C20(Check):
             s1, s2 = ScriptSock(), ScriptSock()
             con, con2 = of_01.Connection(s1), of_01.Connection(s2)      # each writes its hello
             hello = len(s1.accepted)
+            # the connection counts as announced (ConnectionUp raised), so that losing it must be reported: exactly one
+            # ConnectionDown on the nexus and one on the connection, whichever path noticed the fatal error
+            downs = {"nexus": 0, "con": 0}
+            class Nexus:
+                def _disconnect(self, dpid, c=None): return True
+                def raiseEventNoErrors(self, ev, *a, **k):
+                    if getattr(ev, "__name__", "") == "ConnectionDown": downs["nexus"] += 1
+            con.ofnexus = Nexus(); con.dpid = 1; con.connect_time = 1.0
+            con.addListenerByName("ConnectionDown", lambda e: downs.__setitem__("con", downs["con"] + 1))
             def iteration(which, outs):
                 plan["lists"], plan["calls"] = which, 0
                 s1.script = [self._o(o) for o in outs]
@@ -295,7 +311,9 @@ class C20(Check):
                 if op["op"] == "send":
                     d = data(op["i"], op["n"])
                     if not con.disconnected: queued += d
-                    s1.script = [self._o(op["o"])]
+                    # "more" = what a second, third ... direct sock.send in the same Connection.send would get; the code as
+                    # it is makes ONE direct attempt and hands the rest to the deferred sender, a "retry once" rewrite would ask
+                    s1.script = [self._o(op["o"])] + [self._o(o) for o in op.get("more", [])]
                     con.send(d)
                     s1.script = []
                 elif op["op"] == "send_raced":
@@ -315,13 +333,16 @@ class C20(Check):
                     s2.script = [{"o": "again"}]; con2.send(b"\x01\x02\x03"); s2.script = []
                 else:
                     iteration([con2], [])
+            # what the serving task does with a connection it finds disconnected (its read returns False): con.close()
+            if con.disconnected:
+                con.close(); con.close()
         except Exception as e:
             status = "raise:" + type(e).__name__ + ":" + str(e)[:60]
         finally:
             of_01.deferredSender, of_01.PIPE_BUF, of_01.select = old_ds, old_pb, old_select
         pend = [bytes(x).hex() for x in ds._dataForConnection.get(con, [])]
         return {"accepted": s1.accepted[hello:].hex(), "pending": pend, "disc": bool(con.disconnected), "sending": bool(ds.sending),
-                "offered_after_disc": s1.offered_after_fatal, "queued": queued.hex(), "status": status}
+                "offered_after_disc": s1.offered_after_fatal, "queued": queued.hex(), "status": status, "downs": [downs["nexus"], downs["con"]]}
 
     # ------------------------------------------------------------------ model
     def model_request2(self, case, obs):
@@ -385,6 +406,9 @@ class C20(Check):
         if not queued.startswith(acc): return "socket accepted bytes that are not a prefix of the queued stream"
         pend = b"".join(bytes.fromhex(p) for p in obs["pending"])
         if not obs["disc"] and acc + pend != queued: return "live connection: accepted + deferred != queued (lost/duplicated/reordered)"
+        if "downs" in obs:
+            want = [1, 1] if obs["disc"] else [0, 0]
+            if obs["downs"] != want: return "connection reported closed %s times (nexus, connection), expected %s" % (obs["downs"], want)
         # all parts, real threads included (theorem ctl_no_attempt_after_fatal; the raced-send interleaving of former finding
         # C20-R1 is in the corpus and is reached by the random part-T schedules as well)
         if obs["offered_after_disc"]: return "write attempted after a fatal socket error"
